@@ -270,9 +270,9 @@ class _Builder:
         for sub in self._needs_lowering(e):
             if sub.get('k') == 'cond':
                 t, f = self.cond(sub['c'], preds)
-                ta = self.g.new('stmt', expr=sub['t'], line=self.line(sub['t']), name='cond-arm')
+                ta = self.g.new('stmt', expr=sub['t'], line=self.line(sub['t']), name='cond-arm:%d' % sub['id'])
                 self.g.connect(t, ta)
-                fa = self.g.new('stmt', expr=sub['e'], line=self.line(sub['e']), name='cond-arm')
+                fa = self.g.new('stmt', expr=sub['e'], line=self.line(sub['e']), name='cond-arm:%d' % sub['id'])
                 self.g.connect(f, fa)
                 j = self.g.new('nop', line=self.line(sub), name='value-join')
                 self.g.edge(ta, j)
